@@ -374,7 +374,7 @@ impl Property for P {
         vec!["bit flips in messages longer than 96 bytes are sampled (tag bits always exhaustive)".into(), "a forgery succeeding with probability 2^-128 is ignored".into()]
     }
     fn strategy(&self, _tier: Tier) -> BoxedStrategy<Case> {
-        let msg = (prop_oneof![10 => gen::bytes(64), 1 => gen::bytes(600)], gen::bytes(40)).prop_map(|(pt, aad)| Msg { pt, aad });
+        let msg = (prop_oneof![10 => gen::bytes(64), 1 => gen::bytes(600)], prop_oneof![14 => gen::bytes(40), 1 => gen::bytes(1100)]).prop_map(|(pt, aad)| Msg { pt, aad });
         let start = prop_oneof![7 => Just(0u64), 2 => gen::position(), 1 => (0u64..4).prop_map(|d| u64::MAX - d)];
         (gen::session_with(gen::suite_sealing_cheap()), proptest::collection::vec(msg, 1..=3), any::<u64>(), start, prop_oneof![6 => Just(0u16), 1 => 50u16..400])
             .prop_map(|(sess, msgs, variant_seed, start, empty_messages)| Case { sess, msgs, variant_seed, start, empty_messages })
